@@ -999,6 +999,18 @@ def m_position(it, callee, args, m):
         i += 1
 
 
+def m_rposition(it, callee, args, m):
+    """Iterator::rposition on an exact-size double-ended iterator: the index (from the front) of the last matching item"""
+    inner, clos = to_iter(args[0]), args[1]
+    if not isinstance(inner, SeqIter):
+        raise Unsupported("rposition on a lazy iterator")
+    items = inner.remaining()
+    for i in range(len(items) - 1, -1, -1):
+        if call_pred(it, clos, [items[i]]):
+            return some(usize(i))
+    return NONE()
+
+
 def m_find(it, callee, args, m):
     inner, clos = to_iter(args[0]), args[1]
     while True:
@@ -2227,6 +2239,7 @@ def m_vec_resize(it, callee, args, m):
 
 IT = r"(?:<.* as (?:Iterator|DoubleEndedIterator|ExactSizeIterator|IntoIterator)>|Iterator|DoubleEndedIterator)"
 MODELS = [
+    (IT + r"::rposition::<", m_rposition),
     (r"^<(u8|u16|u32|u64|usize) as From<bool>>::from$", lambda it, c, a, m: Int(z3.If(a[0], z3.BitVecVal(1, {"u8": 8, "u16": 16, "u32": 32}.get(m.group(1), 64)), z3.BitVecVal(0, {"u8": 8, "u16": 16, "u32": 32}.get(m.group(1), 64))), {"u8": 8, "u16": 16, "u32": 32}.get(m.group(1), 64), False)),
     (r"^core::num::<impl (u8|u16|u32|u64|usize)>::rotate_left$", lambda it, c, a, m: Int(z3.RotateLeft(a[0].t, z3.ZeroExt(a[0].bits - 32, a[1].t) if a[1].bits < a[0].bits else z3.Extract(a[0].bits - 1, 0, a[1].t)), a[0].bits, False)),
     (r"^core::num::<impl (u8|u16|u32|u64|usize)>::rotate_right$", lambda it, c, a, m: Int(z3.RotateRight(a[0].t, z3.ZeroExt(a[0].bits - 32, a[1].t) if a[1].bits < a[0].bits else z3.Extract(a[0].bits - 1, 0, a[1].t)), a[0].bits, False)),
